@@ -98,58 +98,49 @@ theorem toI32_range (n : Nat) (h : n < 4294967296) : -2147483648 ≤ toI32 n ∧
 theorem rd64_lt (b : Bytes) : rd64 b < 18446744073709551616 := by
   unfold rd64; have := rd32_lt b; have := rd32_lt (b.drop 4); omega
 
-/-! ## scalar readers -/
+/-! ## scalar readers
+
+  Every proof below: unfold both sides, split on the SEMANTIC condition (`b.length < n`), `go_simp` — which decides each
+  `if` of either side with `omega` from that hypothesis, whatever its polarity or arithmetic shape. -/
 
 theorem Binary_ReadBool_eq (b : Bytes) : liftRd (Funcs.Binary_ReadBool b) = Wire.binReadBool b := by
   unfold Funcs.Binary_ReadBool Wire.binReadBool
   by_cases h : b.length < 1
-  · have h' : (b.length : Int) < 1 := by omega
-    simp [h, h', len, liftRd, absErr, errShort, Facts.peINVALID_DATA]
-  · have h' : ¬ (b.length : Int) < 1 := by omega
-    have h0 : 0 < b.length := by omega
+  · go_simp [h, liftRd, absErr, errShort, Facts.peINVALID_DATA]
+  · have h0 : 0 < b.length := by omega
     by_cases hx : b[0] = 1 <;>
-    simp [h, h', h0, hx, len, liftRd, idx_zero, u8_int_eq_one]
+    go_simp [h, h0, hx, liftRd, idx_zero, u8_int_eq_one]
 
 theorem Binary_ReadByte_eq (b : Bytes) : liftRd (Funcs.Binary_ReadByte b) = Wire.binReadByte b := by
   unfold Funcs.Binary_ReadByte Wire.binReadByte
   by_cases h : b.length < 1
-  · have h' : (b.length : Int) < 1 := by omega
-    simp [h, h', len, liftRd, absErr, errShort, Facts.peINVALID_DATA]
-  · have h' : ¬ (b.length : Int) < 1 := by omega
-    have h0 : 0 < b.length := by omega
-    simp [h, h', h0, len, liftRd, idx_zero, wrap_i8_nat _ (b[0]'h0).toNat_lt]
+  · go_simp [h, liftRd, absErr, errShort, Facts.peINVALID_DATA]
+  · have h0 : 0 < b.length := by omega
+    go_simp [h, h0, liftRd, idx_zero, wrap_i8_nat _ (b[0]'h0).toNat_lt]
 
 theorem Binary_ReadI16_eq (b : Bytes) : liftRd (Funcs.Binary_ReadI16 b) = Wire.binReadI16 b := by
   unfold Funcs.Binary_ReadI16 Wire.binReadI16
   by_cases h : b.length < 2
-  · have h' : (b.length : Int) < 2 := by omega
-    simp [h, h', len, liftRd, absErr, errShort, Facts.peINVALID_DATA]
-  · have h' : ¬ (b.length : Int) < 2 := by omega
-    simp [h, h', len, liftRd, beU16, Wire.getU16, wrap_i16_nat _ (rd16_lt b)]
+  · go_simp [liftRd, absErr, errShort, Facts.peINVALID_DATA]
+  · go_simp [liftRd, beU16, Wire.getU16, wrap_i16_nat _ (rd16_lt b)]
 
 theorem Binary_ReadI32_eq (b : Bytes) : liftRd (Funcs.Binary_ReadI32 b) = Wire.binReadI32 b := by
   unfold Funcs.Binary_ReadI32 Wire.binReadI32
   by_cases h : b.length < 4
-  · have h' : (b.length : Int) < 4 := by omega
-    simp [h, h', len, liftRd, absErr, errShort, Facts.peINVALID_DATA]
-  · have h' : ¬ (b.length : Int) < 4 := by omega
-    simp [h, h', len, liftRd, beU32, Wire.getU32, wrap_i32_nat _ (rd32_lt b)]
+  · go_simp [liftRd, absErr, errShort, Facts.peINVALID_DATA]
+  · go_simp [liftRd, beU32, Wire.getU32, wrap_i32_nat _ (rd32_lt b)]
 
 theorem Binary_ReadI64_eq (b : Bytes) : liftRd (Funcs.Binary_ReadI64 b) = Wire.binReadI64 b := by
   unfold Funcs.Binary_ReadI64 Wire.binReadI64
   by_cases h : b.length < 8
-  · have h' : (b.length : Int) < 8 := by omega
-    simp [h, h', len, liftRd, absErr, errShort, Facts.peINVALID_DATA]
-  · have h' : ¬ (b.length : Int) < 8 := by omega
-    simp [h, h', len, liftRd, beU64, Wire.getU64, wrap_i64_nat _ (rd64_lt b)]
+  · go_simp [liftRd, absErr, errShort, Facts.peINVALID_DATA]
+  · go_simp [liftRd, beU64, Wire.getU64, wrap_i64_nat _ (rd64_lt b)]
 
 theorem Binary_ReadDouble_eq (b : Bytes) : liftRdDouble (Funcs.Binary_ReadDouble b) = Wire.binReadDouble b := by
   unfold Funcs.Binary_ReadDouble Wire.binReadDouble
   by_cases h : b.length < 8
-  · have h' : (b.length : Int) < 8 := by omega
-    simp [h, h', len, liftRdDouble, liftRdG, absErr, errShort, Facts.peINVALID_DATA]
-  · have h' : ¬ (b.length : Int) < 8 := by omega
-    simp [h, h', len, liftRdDouble, liftRdG, beU64, Wire.getU64]
+  · go_simp [liftRdDouble, liftRdG, absErr, errShort, Facts.peINVALID_DATA]
+  · go_simp [liftRdDouble, liftRdG, beU64, Wire.getU64]
 
 /-! ## container headers -/
 
@@ -157,71 +148,51 @@ theorem Binary_ReadFieldBegin_eq (b : Bytes) :
     liftRdField (Funcs.Binary_ReadFieldBegin b) = Wire.binReadFieldBegin b := by
   unfold Funcs.Binary_ReadFieldBegin Wire.binReadFieldBegin
   by_cases h : b.length < 1
-  · have h' : (b.length : Int) < 1 := by omega
-    simp [h, h', len, liftRdField, liftRdG, absErr, errShort, Facts.peINVALID_DATA]
-  · have h' : ¬ (b.length : Int) < 1 := by omega
-    have h0 : 0 < b.length := by omega
+  · go_simp [h, liftRdField, liftRdG, absErr, errShort, Facts.peINVALID_DATA]
+  · have h0 : 0 < b.length := by omega
     have hw := wrap_i8_nat _ (b[0]'h0).toNat_lt
     by_cases hs : b[0] = 0
-    · simp [h, h', h0, hs, len, liftRdField, liftRdG, idx_zero, Wire.bAt, T_STOP, Facts.tSTOP, wrap, toU,
+    · go_simp [h, h0, hs, liftRdField, liftRdG, idx_zero, Wire.bAt, T_STOP, Facts.tSTOP, wrap, toU,
         IT.bits, IT.signed, tyByte, ofInt]
     · have hs' : ¬ toI8 (b[0]'h0).toNat = 0 := fun hc => hs ((toI8_eq_zero _).mp hc)
       by_cases h3 : b.length < 3
-      · have h3' : (b.length : Int) < 3 := by omega
-        simp [h, h', h0, hs, hs', h3, h3', hw, len, liftRdField, liftRdG, idx_zero, Wire.bAt, T_STOP, Facts.tSTOP,
+      · go_simp [h, h0, hs, hs', hw, liftRdField, liftRdG, idx_zero, Wire.bAt, T_STOP, Facts.tSTOP,
           absErr, errShort, Facts.peINVALID_DATA]
-      · have h3' : ¬ (b.length : Int) < 3 := by omega
-        have hsl := sliceFrom_ok b 1 (by omega) (by omega)
-        have hd : ¬ (b.length - 1 < 2) := by omega
-        have hb1 : ¬ (1 > b.length) := by omega
-        simp [h, h', h0, hs, hs', h3, h3', hw, hsl, hd, hb1, len, liftRdField, liftRdG, idx_zero, Wire.bAt, T_STOP,
+      · go_simp [h, h0, hs, hs', hw, sliceFrom_ok, liftRdField, liftRdG, idx_zero, Wire.bAt, T_STOP,
           Facts.tSTOP, Wire.bFrom, beU16, Wire.getU16, wrap_i16_nat _ (rd16_lt _), tyByte_toI8]
 
 theorem Binary_ReadMapBegin_eq (b : Bytes) :
     liftRdMap (Funcs.Binary_ReadMapBegin b) = Wire.binReadMapBegin b := by
   unfold Funcs.Binary_ReadMapBegin Wire.binReadMapBegin
   by_cases h : b.length < 6
-  · have h' : (b.length : Int) < 6 := by omega
-    simp [h, h', len, liftRdMap, liftRdG, absErr, errShort, Facts.peINVALID_DATA]
-  · have h' : ¬ (b.length : Int) < 6 := by omega
-    have h0 : 0 < b.length := by omega
+  · go_simp [liftRdMap, liftRdG, absErr, errShort, Facts.peINVALID_DATA]
+  · have h0 : 0 < b.length := by omega
     have h1 : 1 < b.length := by omega
     have hw0 := wrap_i8_nat _ (b[0]'h0).toNat_lt
     have hw1 := wrap_i8_nat _ (b[1]'h1).toNat_lt
-    have hsl := sliceFrom_ok b 2 (by omega) (by omega)
-    have hd : ¬ (b.length - 2 < 4) := by omega
-    have hb : ¬ (2 > b.length) := by omega
-    simp [h, h', h0, h1, hw0, hw1, hsl, hd, hb, len, liftRdMap, liftRdG, idx_zero, idx_one, Wire.bAt, Wire.bFrom,
+    go_simp [h0, h1, hw0, hw1, sliceFrom_ok, liftRdMap, liftRdG, idx_zero, idx_one, Wire.bAt, Wire.bFrom,
       beU32, Wire.getU32, tyByte_toI8]
 
 theorem Binary_ReadListBegin_eq (b : Bytes) :
     liftRdList (Funcs.Binary_ReadListBegin b) = Wire.binReadListBegin b := by
   unfold Funcs.Binary_ReadListBegin Wire.binReadListBegin
   by_cases h : b.length < 5
-  · have h' : (b.length : Int) < 5 := by omega
-    simp [h, h', len, liftRdList, liftRdG, absErr, errShort, Facts.peINVALID_DATA]
-  · have h' : ¬ (b.length : Int) < 5 := by omega
-    have h0 : 0 < b.length := by omega
+  · go_simp [liftRdList, liftRdG, absErr, errShort, Facts.peINVALID_DATA]
+  · have h0 : 0 < b.length := by omega
+    have hne : b ≠ [] := List.ne_nil_of_length_pos h0
     have hw0 := wrap_i8_nat _ (b[0]'h0).toNat_lt
-    have hsl := sliceFrom_ok b 1 (by omega) (by omega)
-    have hd : ¬ (b.length - 1 < 4) := by omega
-    have hb : ¬ (1 > b.length) := by omega
-    simp [h, h', h0, hw0, hsl, hd, hb, len, liftRdList, liftRdG, idx_zero, Wire.bAt, Wire.bFrom,
+    go_simp [h0, hne, hw0, sliceFrom_ok, liftRdList, liftRdG, idx_zero, Wire.bAt, Wire.bFrom,
       beU32, Wire.getU32, tyByte_toI8]
 
 theorem Binary_ReadSetBegin_eq (b : Bytes) :
     liftRdList (Funcs.Binary_ReadSetBegin b) = Wire.binReadSetBegin b := by
   unfold Funcs.Binary_ReadSetBegin Wire.binReadSetBegin
   by_cases h : b.length < 5
-  · have h' : (b.length : Int) < 5 := by omega
-    simp [h, h', len, liftRdList, liftRdG, absErr, errShort, Facts.peINVALID_DATA]
-  · have h' : ¬ (b.length : Int) < 5 := by omega
-    have h0 : 0 < b.length := by omega
+  · go_simp [liftRdList, liftRdG, absErr, errShort, Facts.peINVALID_DATA]
+  · have h0 : 0 < b.length := by omega
+    have hne : b ≠ [] := List.ne_nil_of_length_pos h0
     have hw0 := wrap_i8_nat _ (b[0]'h0).toNat_lt
-    have hsl := sliceFrom_ok b 1 (by omega) (by omega)
-    have hd : ¬ (b.length - 1 < 4) := by omega
-    have hb : ¬ (1 > b.length) := by omega
-    simp [h, h', h0, hw0, hsl, hd, hb, len, liftRdList, liftRdG, idx_zero, Wire.bAt, Wire.bFrom,
+    go_simp [h0, hne, hw0, sliceFrom_ok, liftRdList, liftRdG, idx_zero, Wire.bAt, Wire.bFrom,
       beU32, Wire.getU32, tyByte_toI8]
 
 /-! ## ReadBinary / ReadString -/
@@ -238,12 +209,21 @@ theorem Binary_ReadI32_cases (b : Bytes) :
     (¬ b.length < 4 ∧ Funcs.Binary_ReadI32 b = .ok (toI32 (rd32 b), 4, GoErr.nil)) := by
   unfold Funcs.Binary_ReadI32
   by_cases h : b.length < 4
-  · have h' : (b.length : Int) < 4 := by omega
-    left; refine ⟨h, ?_⟩
-    simp [h', len]
-  · have h' : ¬ (b.length : Int) < 4 := by omega
-    right; refine ⟨h, ?_⟩
-    simp [h, h', len, beU32, wrap_i32_nat _ (rd32_lt b)]
+  · left; refine ⟨h, ?_⟩
+    go_simp
+  · right; refine ⟨h, ?_⟩
+    go_simp [beU32, wrap_i32_nat _ (rd32_lt b)]
+
+/-- `b[lo:hi]` in range, in the models' form; the side conditions are discharged by `omega` in `go_simp` -/
+theorem rd_slice_ok (b : Bytes) (lo hi : Int) (h0 : 0 ≤ lo) (h1 : lo ≤ hi) (h2 : hi ≤ (b.length : Int)) :
+    slice b lo hi = .ok ((b.drop lo.toNat).take (hi.toNat - lo.toNat)) := by
+  have hn : ¬ (hi < 0 ∨ hi > (b.length : Int)) := by omega
+  have hm : ¬ (lo < 0 ∨ lo > hi) := by omega
+  simp [slice, len, hn, hm, List.drop_take]
+
+/-- `take`/`drop` with arithmetically equal counts -/
+theorem rd_take_drop_congr (b : Bytes) (m m' k k' : Nat) (hm : m = m') (hk : k = k') :
+    (b.drop m).take k = (b.drop m').take k' := by subst hm; subst hk; rfl
 
 theorem Binary_ReadBinary_cases (g : Bool) (b : Bytes) :
     (∃ r, Funcs.Binary_ReadBinary g b = .ok r ∧ r.2.2 ≠ GoErr.nil ∧
@@ -254,23 +234,21 @@ theorem Binary_ReadBinary_cases (g : Bool) (b : Bytes) :
   rcases Binary_ReadI32_cases b with ⟨h, r, hr, he⟩ | ⟨h, hr⟩
   · left
     have hm := binReadI32_short b h
-    simp [hr, he, hm, absErr, errShort, Facts.peINVALID_DATA]
+    go_simp [hr, he, hm, absErr, errShort, Facts.peINVALID_DATA]
   · have hm := binReadI32_long b h
     have ⟨hlo, hhi⟩ := toI32_range _ (rd32_lt b)
     by_cases hneg : toI32 (rd32 b) < 0
-    · left; simp [hr, hm, hneg, absErr, errNeg, Facts.peNEGATIVE_SIZE]
+    · left; go_simp [hr, hm, absErr, errNeg, Facts.peNEGATIVE_SIZE]
     · obtain ⟨k, hk⟩ : ∃ k : Nat, toI32 (rd32 b) = (k : Int) := ⟨(toI32 (rd32 b)).toNat, by omega⟩
       rw [hk] at hlo hhi hneg
-      have hw : wrap .i64 (4 + (k : Int)) = 4 + (k : Int) := wrap_i64_of_range _ (by omega) (by omega)
       by_cases hl : b.length < 4 + k
       · left
-        have hl' : (b.length : Int) < 4 + (k : Int) := by omega
-        simp [hr, hm, hk, hneg, hw, hl, hl', len, absErr, errShort, Facts.peINVALID_DATA]
+        go_simp [hr, hm, hk, wrap_i64_of_range, absErr, errShort, Facts.peINVALID_DATA]
       · right
-        have hl' : ¬ (b.length : Int) < 4 + (k : Int) := by omega
         refine ⟨(b.drop 4).take k, 4 + k, ?_, ?_, by omega, by omega, by omega⟩
-        · cases g <;> simp [hr, hk, hneg, hw, hl', len, slice_four b k (by omega)]
-        · simp [hm, hk, hneg, hl]
+        · cases g <;> go_simp [hr, hk, wrap_i64_of_range, rd_slice_ok] <;>
+            first | omega | (refine ⟨?_, by omega⟩; apply rd_take_drop_congr <;> omega)
+        · go_simp [hm, hk]
 
 theorem Binary_ReadString_cases (g : Bool) (b : Bytes) :
     (∃ r, Funcs.Binary_ReadString g b = .ok r ∧ r.2.2 ≠ GoErr.nil ∧
@@ -281,23 +259,21 @@ theorem Binary_ReadString_cases (g : Bool) (b : Bytes) :
   rcases Binary_ReadI32_cases b with ⟨h, r, hr, he⟩ | ⟨h, hr⟩
   · left
     have hm := binReadI32_short b h
-    simp [hr, he, hm, absErr, errShort, Facts.peINVALID_DATA]
+    go_simp [hr, he, hm, absErr, errShort, Facts.peINVALID_DATA]
   · have hm := binReadI32_long b h
     have ⟨hlo, hhi⟩ := toI32_range _ (rd32_lt b)
     by_cases hneg : toI32 (rd32 b) < 0
-    · left; simp [hr, hm, hneg, absErr, errNeg, Facts.peNEGATIVE_SIZE]
+    · left; go_simp [hr, hm, absErr, errNeg, Facts.peNEGATIVE_SIZE]
     · obtain ⟨k, hk⟩ : ∃ k : Nat, toI32 (rd32 b) = (k : Int) := ⟨(toI32 (rd32 b)).toNat, by omega⟩
       rw [hk] at hlo hhi hneg
-      have hw : wrap .i64 (4 + (k : Int)) = 4 + (k : Int) := wrap_i64_of_range _ (by omega) (by omega)
       by_cases hl : b.length < 4 + k
       · left
-        have hl' : (b.length : Int) < 4 + (k : Int) := by omega
-        simp [hr, hm, hk, hneg, hw, hl, hl', len, absErr, errShort, Facts.peINVALID_DATA]
+        go_simp [hr, hm, hk, wrap_i64_of_range, absErr, errShort, Facts.peINVALID_DATA]
       · right
-        have hl' : ¬ (b.length : Int) < 4 + (k : Int) := by omega
         refine ⟨(b.drop 4).take k, 4 + k, ?_, ?_, by omega, by omega, by omega⟩
-        · cases g <;> simp [hr, hk, hneg, hw, hl', len, slice_four b k (by omega)]
-        · simp [hm, hk, hneg, hl]
+        · cases g <;> go_simp [hr, hk, wrap_i64_of_range, rd_slice_ok] <;>
+            first | omega | (refine ⟨?_, by omega⟩; apply rd_take_drop_congr <;> omega)
+        · go_simp [hm, hk]
 
 theorem Binary_ReadBinary_eq (g : Bool) (b : Bytes) :
     liftRd (Funcs.Binary_ReadBinary g b) = Wire.binReadBinary b := by
@@ -324,48 +300,41 @@ theorem band_u32_nat (a m : Nat) (ha : a < 4294967296) (hm : m < 4294967296) :
   unfold ofInt
   omega
 
+/-- `b[lo:]` at an offset arithmetically equal to the natural `m` (whatever expression computes it) -/
+theorem rd_sliceFrom_at (b : Bytes) (m : Nat) (hm : m ≤ b.length) (lo : Int) (h : lo = (m : Int)) :
+    sliceFrom b lo = .ok (b.drop m) := by
+  subst h; rw [sliceFrom_ok b _ (by omega) (by omega)]; simp
+
 theorem Binary_ReadMessageBegin_eq (g : Bool) (b : Bytes) :
     liftRdMsg (Funcs.Binary_ReadMessageBegin g b) = Wire.binReadMessageBegin b := by
   unfold Funcs.Binary_ReadMessageBegin Wire.binReadMessageBegin
   by_cases h : b.length < 4
-  · have h' : (b.length : Int) < 4 := by omega
-    simp [h, h', len, liftRdMsg, liftRdG, absErr, errShort, Facts.peINVALID_DATA]
-  · have h' : ¬ (b.length : Int) < 4 := by omega
-    have hv : band .u32 (rd32 b : Int) 4294901760 = ((rd32 b &&& 4294901760 : Nat) : Int) := by
+  · go_simp [liftRdMsg, liftRdG, absErr, errShort, Facts.peINVALID_DATA]
+  · have hv : band .u32 (rd32 b : Int) 4294901760 = ((rd32 b &&& 4294901760 : Nat) : Int) := by
       simpa using band_u32_nat (rd32 b) 4294901760 (rd32_lt b) (by omega)
     have ht : band .u32 (rd32 b : Int) 65535 = ((rd32 b &&& 65535 : Nat) : Int) := by
       simpa using band_u32_nat (rd32 b) 65535 (rd32_lt b) (by omega)
     have htl : rd32 b &&& 65535 ≤ 65535 := Nat.and_le_right
-    have htw : wrap .i32 ((rd32 b &&& 65535 : Nat) : Int) = ((rd32 b &&& 65535 : Nat) : Int) :=
-      wrap_i32_of_range _ (by omega) (by omega)
-    have hsl := sliceFrom_ok b 4 (by omega) (by omega)
-    have hb4 : ¬ (4 > b.length) := by omega
+    have hsl := rd_sliceFrom_at b 4 (by omega)
     by_cases hver : rd32 b &&& 4294901760 = 2147549184
-    · have hver' : ((rd32 b &&& 4294901760 : Nat) : Int) = 2147549184 := by omega
-      rcases Binary_ReadString_cases g (b.drop 4) with ⟨r, hr, he, hm⟩ | ⟨s, n, hr, hm, hn4, hnl, hnu⟩
-      · simp [h, h', hv, ht, htw, hsl, hb4, hver, hver', hr, he, hm, len, liftRdMsg, liftRdG, beU32, Wire.getU32,
+    · rcases Binary_ReadString_cases g (b.drop 4) with ⟨r, hr, he, hm⟩ | ⟨s, n, hr, hm, hn4, hnl, hnu⟩
+      · go_simp [hv, ht, hsl, hver, hr, he, hm, wrap_i32_of_range, liftRdMsg, liftRdG, beU32, Wire.getU32,
           Wire.bFrom, Wire.orErr, Facts.msgVersionMask, Facts.msgVersion1, Facts.msgTypeMask, absErr, errShort,
           Facts.peINVALID_DATA]
       · have hdl : (b.drop 4).length = b.length - 4 := by simp
         have hn : 4 + n ≤ b.length := by omega
-        have hw1 : wrap .i64 (4 + (n : Int)) = 4 + (n : Int) := wrap_i64_of_range _ (by omega) (by omega)
-        have hw2 : wrap .i64 (4 + (n : Int) + 4) = 4 + (n : Int) + 4 := wrap_i64_of_range _ (by omega) (by omega)
-        have hsl2 := sliceFrom_ok b (4 + (n : Int)) (by omega) (by omega)
-        have htn : (4 + (n : Int)).toNat = 4 + n := by omega
-        have htn2 : (4 + (n : Int) + 4).toNat = 4 + n + 4 := by omega
-        have hbn : ¬ (4 + n > b.length) := by omega
-        rw [htn] at hsl2
+        have hsl2 := rd_sliceFrom_at b (4 + n) hn
         rcases Binary_ReadI32_cases (b.drop (4 + n)) with ⟨h2, r2, hr2, he2⟩ | ⟨h2, hr2⟩
         · have hm2 := binReadI32_short _ h2
-          simp [h, h', hv, ht, htw, hsl, hb4, hver, hver', hr, hm, hw1, hsl2, hbn, hr2, he2, hm2, len, liftRdMsg,
+          go_simp [hv, ht, hsl, hsl2, hver, hr, hm, hr2, he2, hm2, wrap_i32_of_range, wrap_i64_of_range, liftRdMsg,
             liftRdG, beU32, Wire.getU32, Wire.bFrom, Wire.orErr, Facts.msgVersionMask, Facts.msgVersion1,
             Facts.msgTypeMask, absErr, errShort, Facts.peINVALID_DATA]
         · have hm2 := binReadI32_long _ h2
-          simp [h, h', hv, ht, htw, hsl, hb4, hver, hver', hr, hm, hw1, hw2, htn2, hsl2, hbn, hr2, hm2, len, liftRdMsg,
+          go_simp [hv, ht, hsl, hsl2, hver, hr, hm, hr2, hm2, wrap_i32_of_range, wrap_i64_of_range, liftRdMsg,
             liftRdG, beU32, Wire.getU32, Wire.bFrom, Wire.orErr, Facts.msgVersionMask, Facts.msgVersion1,
             Facts.msgTypeMask]
-    · have hver' : ¬ ((rd32 b &&& 4294901760 : Nat) : Int) = 2147549184 := by omega
-      simp [h, h', hv, hver, hver', len, liftRdMsg, liftRdG, beU32, Wire.getU32, Facts.msgVersionMask,
+          all_goals omega   -- the returned length, whatever expression computes it
+    · go_simp [hv, hver, liftRdMsg, liftRdG, beU32, Wire.getU32, Facts.msgVersionMask,
         Facts.msgVersion1, absErr, Wire.errBadVersion, Facts.peBAD_VERSION]
 
 /-! ## the generated functions compute (non-vacuity) -/
